@@ -671,8 +671,13 @@ func ExecutePlan(plan *Plan, p ExecuteParams) (result *Result) {
 	resultChannel := make(chan *Result, 2)
 	go func() {
 		out := &Result{}
+		var eCtx *executionContext
 		defer func() {
 			if err := recover(); err != nil {
+				if eCtx != nil {
+					// keep what was already recorded (field errors, extension hook errors)
+					out.Errors = append(out.Errors, eCtx.Errors...)
+				}
 				if e, ok := err.(error); ok {
 					out.Errors = append(out.Errors, gqlerrors.FormatError(e))
 				} else {
@@ -698,7 +703,7 @@ func ExecutePlan(plan *Plan, p ExecuteParams) (result *Result) {
 		if plan.dynamicDirectives {
 			plan = plan.specialise(variableValues)
 		}
-		eCtx := &executionContext{
+		eCtx = &executionContext{
 			Schema:         execSchema,
 			Fragments:      plan.fragments,
 			Root:           p.Root,
